@@ -9,7 +9,7 @@
    groups have order r, so logarithms count modulo r; ScalarMult / Add become multiplication and
    addition mod r.  The pairing check VerifyG1(pk, M, sig) becomes equality of logarithms mod r.
    Everything is parameterised by the modulus [r]; [Concrete] instantiates it with bn256.Order. *)
-From Coq Require Import ZArith NArith List Bool Lia Zgcd_alt.
+From Coq Require Import ZArith NArith List Bool Lia.
 From KV Require Import Common.Verdict.
 Import ListNotations.
 Open Scope Z_scope.
@@ -36,21 +36,25 @@ Fixpoint valid_shares (l : list entry) : list (Z * Z) :=
   end.
 
 (* big.Int.ModInverse(g, n) for n > 0: None when g has no inverse (Go returns nil).
-   Extended Euclid on the trajectory of Zgcd_alt.Zgcdn, carrying the Bezout coefficient. *)
-Fixpoint egcdn (n : nat) (a b u v : Z) : Z * Z :=
+   Extended Euclid carrying one Bezout coefficient: a = u*g and b = v*g modulo n throughout.
+   The fuel always suffices (Proofs/C03_inv.v: egcdn_fuel). *)
+Fixpoint egcdn (n : nat) (a b u v : Z) : option (Z * Z) :=
   match n with
-  | O => (1, 0)
+  | O => None
   | S n' =>
       match a with
-      | Z0 => (Z.abs b, v)
+      | Z0 => Some (Z.abs b, v)
       | Zpos _ => let (q, m) := Z.div_eucl b a in egcdn n' m a (v - q * u) u
-      | Zneg a' => let (q, m) := Z.div_eucl b (Zpos a') in egcdn n' m (Zpos a') (v + q * u) (- u)
+      | Zneg _ => None
       end
   end.
+Definition inv_fuel (a : Z) : nat := S (2 * Z.to_nat (Z.log2 a + 1)).
 Definition mod_inverse (g n : Z) : option Z :=
   let g' := g mod n in
-  let '(d, x) := egcdn (Zgcd_bound g') g' n 1 0 in
-  if d =? 1 then Some (x mod n) else None.
+  match egcdn (inv_fuel g') g' n 1 0 with
+  | Some (d, x) => if d =? 1 then Some (x mod n) else None
+  | None => None
+  end.
 
 (* GetSecretKeyShare: Horner evaluation, coefficients lowest degree first, no reduction *)
 Fixpoint eval (cs : list Z) (x : Z) : Z :=
